@@ -230,7 +230,7 @@ class Schema:
         return False
 
     def add_schema(self, schema, root_path: DataPath):
-        for rule in schema.rules:
+        for rule in list(schema.rules):  # (a copy: `schema` may be this schema itself)
             # re-root a copy; the added schema's own rules are left as they are
             self.rules.append(
                 Rule(
